@@ -222,7 +222,6 @@ theorem msgVariant_lenBound (variants : List (String × Nat)) : LenBound (msgVar
 /-- the three record classes never report more bytes than they were given, always consume at least
 five, and reject every proper prefix of a composed packet as not enough data -/
 theorem records_lenBound : LenBound recordInit ∧ LenBound recordKexDH ∧ LenBound recordKexDHGroup :=
-  ⟨record_lenBound (msgVariant_lenBound _), record_lenBound (msgVariant_lenBound _),
-    record_lenBound (msgVariant_lenBound _)⟩
+  ⟨record_lenBound _, record_lenBound _, record_lenBound _⟩
 
 end Cp.Ssh
